@@ -47,7 +47,7 @@ impl RtpsReaderProxy {
     final(self).unsent_changes@ == old(self).unsent_changes@.remove(seq_num),
 @@ensures rp.frame
     final(self).all_acked_before == old(self).all_acked_before, final(self).pending_gap@ == old(self).pending_gap@,
-    final(self).remote_reader_guid == old(self).remote_reader_guid,
+    final(self).remote_reader_guid == old(self).remote_reader_guid, final(self).repair_mode == old(self).repair_mode,
 @@end
 
 @@extract fn src/rtps/rtps_reader_proxy.rs RtpsReaderProxy::remove_from_unsent_set_all_before
@@ -55,7 +55,7 @@ impl RtpsReaderProxy {
     forall|k: SequenceNumber| #[trigger] final(self).unsent(k) <==> (old(self).unsent(k) && k.0 >= before_seq_num.0),
 @@ensures rp.frame
     final(self).all_acked_before == old(self).all_acked_before, final(self).pending_gap@ == old(self).pending_gap@,
-    final(self).remote_reader_guid == old(self).remote_reader_guid,
+    final(self).remote_reader_guid == old(self).remote_reader_guid, final(self).repair_mode == old(self).repair_mode,
 @@body_end
     proof {
         assert forall|k: SequenceNumber| #[trigger] self.unsent(k) <==> (old(self).unsent(k) && k.0 >= before_seq_num.0) by {
@@ -69,7 +69,7 @@ impl RtpsReaderProxy {
     final(self).pending_gap@ == old(self).pending_gap@.insert(seq_num),
 @@ensures rp.frame
     final(self).all_acked_before == old(self).all_acked_before, final(self).unsent_changes@ == old(self).unsent_changes@,
-    final(self).remote_reader_guid == old(self).remote_reader_guid,
+    final(self).remote_reader_guid == old(self).remote_reader_guid, final(self).repair_mode == old(self).repair_mode,
 @@end
 
 @@extract fn src/rtps/rtps_reader_proxy.rs RtpsReaderProxy::get_pending_gap
@@ -84,7 +84,7 @@ impl RtpsReaderProxy {
     final(self).unsent_changes@ == old(self).unsent_changes@.insert(sequence_number),
 @@ensures rp.frame
     final(self).all_acked_before == old(self).all_acked_before, final(self).pending_gap@ == old(self).pending_gap@,
-    final(self).remote_reader_guid == old(self).remote_reader_guid,
+    final(self).remote_reader_guid == old(self).remote_reader_guid, final(self).repair_mode == old(self).repair_mode,
 @@end
 
 @@extract fn src/rtps/rtps_reader_proxy.rs RtpsReaderProxy::acked_up_to_before
